@@ -85,7 +85,10 @@ type SubResult struct {
 	NViol      int64              `json:"nviol"`
 	Exhaustive bool               `json:"exhaustive"`
 	Done       bool               `json:"done"`
-	hashes     map[uint64]struct{}
+	// Digests are results that must be identical wherever (in whichever
+	// worker process, after whatever history) they are computed.
+	Digests map[string]string `json:"digests,omitempty"`
+	hashes  map[uint64]struct{}
 }
 
 // Ctx is handed to Sub.Run.
@@ -135,6 +138,21 @@ func (c *Ctx) Eval(hash uint64, nontrivial bool) {
 func (c *Ctx) EvalBulk(n, nt int64) {
 	c.res.Evals += n
 	c.res.BulkNT += nt
+}
+
+// Digest records a result under a key. The driver compares the values
+// recorded for the same key by different worker processes: they must agree
+// (a disagreement means the result depended on the process's earlier
+// history, i.e. on state that survived from one operation to the next).
+func (c *Ctx) Digest(key, value string) {
+	if c.res.Digests == nil {
+		c.res.Digests = map[string]string{}
+	}
+	if old, ok := c.res.Digests[key]; ok && old != value {
+		c.Violate("result-depends-on-history", map[string]interface{}{"key": key, "first": old, "now": value})
+		return
+	}
+	c.res.Digests[key] = value
 }
 
 // Exhaustive marks the sub-monitor as having enumerated a finite space.
